@@ -15,8 +15,25 @@ TRUSTED = [
 ]
 
 
+def big_value_cases(rng, n):
+    """Implementation-only cases (the model is not evaluated on them): values of 1-40 MiB next to small ones, with reopens
+    and merges, against the map oracle.  Sizes around powers of two, where a size limit would sit."""
+    out = []
+    sizes = [2 ** 20, 2 ** 24 - 100, 2 ** 24 + 1, 20 * 2 ** 20, 2 ** 25 + 1, 40 * 2 ** 20]
+    for i in range(n):
+        r = rng.fork()
+        cfg = {"mfs": r.choice([2 ** 31, 2 ** 20, 0]), "cache": 256, "conc": 1, "frag": (0, 1), "dead": 0, "small": 10 ** 9}
+        big = bytes([r.rng(1, 255)]) * r.choice(sizes)
+        ops = [("set", b"a", b"a1"), ("set", b"big", big), ("set", b"b", b"b1"), ("set", b"a", b"a2"), ("del", b"b"), ("set", b"c", b"c1"),
+               ("get", b"big"), ("reopen",), ("get", b"big"), ("get", b"a"), ("get", b"b"), ("get", b"c")]
+        if r.chance(1, 2):
+            ops += [("merge",), ("get", b"big"), ("get", b"a"), ("get", b"b"), ("reopen",), ("get", b"big"), ("get", b"a"), ("get", b"b"), ("get", b"c")]
+        out.append(S.Case("big%d" % i, cfg, ops))
+    return out
+
+
 def run(pid, tier, seed, profile, ncases, relevant=None, extra_oracle=None, corpus=None, maxlen=25,
-        rule="", assumptions=None, line_norm=None):
+        rule="", assumptions=None, line_norm=None, big_values=0):
     rep = Report(pid, tier, seed)
     rng = Rng(seed)
     pr = coq_check_props(pid)
@@ -66,6 +83,18 @@ def run(pid, tier, seed, profile, ncases, relevant=None, extra_oracle=None, corp
                                      "impl": a[:300], "model": b[:300]})
                 break
     rep.obligation("correspondence store: model = implementation on every compared observable", ndis == 0)
+    # large values: implementation against the map oracle only
+    bigs = big_value_cases(rng, big_values) if big_values else []
+    if bigs:
+        died_b = S.run_impl(bigs)
+        for c in bigs:
+            bad = S.spec_check(c)
+            if c.name in died_b and not bad:
+                bad.append((len(c.impl or []), "the store process died or hung"))
+            if bad:
+                rep.failing.append({"what": bad[0][1] + " (value of %d bytes in the history)" % max(len(o[2]) for o in c.ops if o[0] == "set"),
+                                    "at_op": bad[0][0], "all": [b[1] for b in bad[:5]], "case": c.show(), "impl": (c.impl or [])[:30]})
+        rep.obligation("large values (1-40 MiB): implementation = map, across reopen and merge", not any("bytes in the history" in f["what"] for f in rep.failing))
     # shrink the first failing case for the replay
     if rep.failing:
         first = rep.failing[0]
@@ -86,7 +115,7 @@ def run(pid, tier, seed, profile, ncases, relevant=None, extra_oracle=None, corp
     rep.coverage.update({
         "checker_cmd": "make -C coq Props/%s.vo (coqc 8.16.1) ; bin/check %s" % (pid, pid),
         "trusted_base": TRUSTED,
-        "evaluations": len(cases),
+        "evaluations": len(cases), "large_value_cases": len(bigs),
         "operations": nops,
         "distinct_nontrivial": len(distinct),
         "rule": "distinct (operation-kind sequence, max_file_size, thresholds) among scripts containing a merge, reopen or "
